@@ -164,6 +164,13 @@ def build_world(case):
     if case.get('remove_branch') is not None:
         # a branch leaves the WBS: links between it and the survivors now leave the WBS
         cands = [o for o in objs if len(o.children) and o.wbs is b.wbs]
+        if cands and case.get('printed_before'):
+            # the sheet had been printed before the plan was edited: the next sheet shows the plan as it is then
+            try:
+                capture(lambda: b.wbs.print(['id', 'name', 'predecessors', 'successors', 'parent']))
+                repr(b.wbs)
+            except Exception:
+                pass
         if cands:
             victim = cands[case['remove_branch'] % len(cands)]
             b.wbs.remove(victim)
@@ -335,10 +342,12 @@ def gen_case(rnd):
         fields = rnd.sample(FIELDS, rnd.randint(1, 8))
         if rnd.random() < 0.08:
             fields.insert(rnd.randrange(len(fields) + 1), '')      # "any choice of fields": the empty name is an unknown field too
+        if rnd.random() < 0.06:
+            fields.insert(rnd.randrange(len(fields) + 1), rnd.choice(fields))      # the same column asked for twice
     theme = rnd.choice([None, {'header_color': '91m', 'level_colors': ['94m'] * rnd.randint(1, 7)},
                         {'header_color': None, 'level_colors': [rnd.choice([None, '96m']) for _ in range(rnd.randint(1, 4))]}])
     return {'kind': 'sheet', 'sched': sc, 'names': names, 'notes': notes, 'ext_links': ext, 'fields': fields,
-            'children': rnd.random() < 0.65, 'theme': theme, 'target': rnd.choice(['wbs', 'task', 'list'] * 5 + ['empty']),
+            'children': rnd.choice([True, True, True, False, False, 1, 0]), 'theme': theme, 'printed_before': rnd.random() < 0.5, 'target': rnd.choice(['wbs', 'task', 'list'] * 5 + ['empty']),
             'pick': [rnd.randrange(50) for _ in range(rnd.randint(0, 5))] or [0], 'usage': rnd.random() < 0.4,
             'remove_branch': rnd.randrange(20) if rnd.random() < 0.25 else None, 'ext_twin': rnd.randrange(20) if ext and rnd.random() < 0.4 else None,
             'print_colors': [[rnd.randrange(20), rnd.choice(['', '93m', None])] for _ in range(rnd.randint(0, 2))] if rnd.random() < 0.3 else []}
